@@ -351,7 +351,7 @@ func drain(ctx context.Context, ch *tds.Channel) ([]tds.Package, error) {
 
 // evalChannel feeds a prefix packet and a remainder packet (EOM) through
 // Channel.WritePacket of a hooked Conn.
-func (p *prep) evalChannel(cut int) (f *vh.Failure) {
+func (p *prep) evalChannel(cut int, t tally) (f *vh.Failure) {
 	defer func() {
 		if r := recover(); r != nil {
 			f = vh.Failf(class(p.kind, "panic"), "%s, channel: panic: %v", p.describe(cut), r)
@@ -446,6 +446,14 @@ func (p *prep) evalChannel(cut int) (f *vh.Failure) {
 	}
 	if f := expect("after the prefix packet", got, before, false); f != nil {
 		return f
+	}
+	if cut%3 == 2 {
+		// the prefix packet was the answer of a fast server: the client's call that sent the
+		// request returns only now, between the truncated attempt and the complete bytes
+		if err := ch.SendPackage(ctx, &tds.LanguagePackage{Cmd: "select 1"}); err != nil {
+			vh.HarnessBug("SendPackage: %v", err)
+		}
+		t["channel:request-completes-between-prefix-and-remainder"]++
 	}
 	ch.WritePacket(packet(p.stream[p.start+cut:], tds.TDS_BUFSTAT_EOM))
 	if f := noError("after the remainder packet"); f != nil {
@@ -609,7 +617,7 @@ func (p *prep) runCut(cut int, t tally) (f *vh.Failure) {
 		t["mode:1-byte-packets"]++
 	}
 	if p.lookup && p.n <= channelMax {
-		if f := p.evalChannel(cut); f != nil {
+		if f := p.evalChannel(cut, t); f != nil {
 			return f
 		}
 		t["mode:channel"]++
